@@ -29,6 +29,7 @@ type VerifGrant struct {
 	MemSize         int64
 	MemType         string
 	InCache         bool
+	ColdTimer       bool // a cold-start timer is armed for the grant (the only source of cold-start-done events)
 }
 
 // VerifPool is a rendering of one pool.
@@ -83,6 +84,9 @@ func VerifSnapshot(b policyapi.Backend) *VerifSnap {
 			MemZone: g.GetMemoryZone().MemsetString(), MemZoneMask: uint64(g.GetMemoryZone()), MemSize: g.GetMemorySize(),
 			MemType: g.MemoryType().String(), InCache: inCache,
 		})
+		if cg, ok := g.(*grant); ok && cg.coldStartTimer != nil {
+			s.Grants[len(s.Grants)-1].ColdTimer = true
+		}
 	}
 	for _, n := range p.pools {
 		t, f := n.GetSupply().(*supply), n.FreeSupply().(*supply)
